@@ -13,6 +13,9 @@ Sub-checks (each with its own generator + oracle):
   compaction         rewrite_jsonl: canonical lines == normalised records in order; old-or-new under a kill
   rotation           histories of append/rotate over directories with pre-existing generations vs reference model
   rotation_crash     every kill point between rotation steps (forked child, os._exit) + a subsequent rotation
+  bulk               one writer, 1000..10000 (thorough: ..65537) tiny records through one capture / staged batch /
+                     the driver's capture+stage+flush / plain appends / one rewrite: per stream exactly its records,
+                     once each, in emission order
 """
 from __future__ import annotations
 
@@ -54,7 +57,8 @@ RULE = ("Hypothesis-generated records (nested JSON, unicode incl. astral/U+2028,
         "fill levels; writers that capture in their own LogMux / stage in their own LogStager among the concurrent "
         "appenders, lines > 1 MiB; 1000+ records per rewrite, appends after a rewrite and after rotations through "
         "the engine's own writer in the same process; rotation with 9..101 backups over 8..13 (+20s, +100s) "
-        "pre-existing generations.")
+        "pre-existing generations; bulk: every (path kind x size in 1000/4095/4096/4097/5000/10000) once per run, "
+        "thorough adds powers of two +-1 up to 65537 and random sizes.")
 ASSUMPTIONS = [
     "records are JSON-shaped dicts (str keys, finite floats, no lone surrogates): other values are outside "
     "'records appended to a JSONL stream'",
@@ -1879,6 +1883,163 @@ def probe_rotate_error():
 
 
 # ================================================================================================
+# 6. bulk: captures / staged batches / appends / rewrites far beyond "a handful of lines"
+# ================================================================================================
+
+# sizes around typical internal bounds (powers of two +-1, round thousands); tiny records keep it cheap
+BULK_SIZES_QUICK = [1000, 4095, 4096, 4097, 5000, 10000]
+BULK_SIZES_MORE = [255, 256, 257, 1023, 1024, 1025, 2047, 2048, 2049, 8191, 8192, 8193, 16384, 16385, 20000, 32769,
+                   65537]
+BULK_KINDS = ["mux_flush", "mux_stage", "driver_capture", "staged", "append", "rewrite"]
+BULK_STREAMS = [["t1.jsonl"], ["turn.jsonl", "custom.jsonl"], ["t2.jsonl", "sub/t1.jsonl", "health.jsonl"]]
+
+
+def _bulk_plan(case):
+    """[(stream, record)] of one writer, deterministic from the case: tiny tagged records, now and then a repeat of
+    the stream (runs) so that per-stream order is meaningful."""
+    r = random.Random(f"{case['sseed']}|bulk")
+    streams = case["streams"]
+    return [(streams[r.randrange(len(streams))], {"i": k, "ms": 1.5} if k % 7 == 0 else {"i": k})
+            for k in range(case["n"])]
+
+
+def check_bulk(case, rec=None):
+    """One writer emits n records; whatever path they take (capture + flush, capture + staging, the driver's own
+    capture/stage/flush, staging with a byte limit, plain appends, one rewrite), every stream afterwards holds
+    exactly that writer's records for it, each once, in the order they were emitted."""
+    from clematis.io import log as iolog
+    from clematis.engine.util import logmux, io_logging as IOL
+    from clematis.engine.orchestrator import logging as ologging
+    from clematis.engine import orchestrator as orch
+    W = _writers()
+    kind, n = case["kind"], case["n"]
+    ci_on = lognorm.ci_active(case["ci"])
+    plan = _bulk_plan(case)
+    via = case.get("via", "io")
+    leak = None
+    with sandbox(case["ci"]) as logs:
+        if kind in ("mux_flush", "mux_stage"):
+            if case.get("capture") == "begin_end":
+                mux, token = ologging._begin_log_capture()
+                try:
+                    for fn, r_ in plan:
+                        W[via](fn, r_)
+                finally:
+                    ologging._end_log_capture(token)
+            else:
+                mux = logmux.LogMux()
+                with logmux.use_mux(mux):
+                    for fn, r_ in plan:
+                        W[via](fn, r_)
+            leak = sorted(read_tree(logs))
+            pairs = mux.dump()
+            if kind == "mux_flush":
+                logmux.flush(pairs)
+            else:  # what the batch driver does with a capture: stage every pair, flush the sorted drain
+                run_protocol([(fn, 5, 0) for fn, _ in pairs], [pl for _, pl in pairs], case.get("limit") or (1 << 25))
+        elif kind == "driver_capture":
+            # the real batch driver; its compute phase is a stub that captures like _run_turn_compute does
+            def compute(ctx, base, aid, text):
+                mux, token = orch._begin_log_capture()
+                try:
+                    for fn, r_ in plan:
+                        W[via](fn, r_)
+                    captured = mux.dump()
+                finally:
+                    orch._end_log_capture(token)
+                return {"turn_id": 5, "slice_idx": 0, "agent_id": aid, "logs": captured, "deltas": [],
+                        "dialogue": "ok", "graphs_touched": set(), "graph_versions": {}}
+
+            def apply_changes(ctx, state, t4):
+                return SNS(applied=0, clamps=0, version_etag="e1", snapshot_path="snap",
+                           metrics={"cache_invalidations": 0})
+            names = ("_run_turn_compute", "apply_changes", "_make_readonly_snapshot")
+            saved = {k: orch.__dict__.get(k) for k in names}
+            orch._run_turn_compute = compute
+            orch.apply_changes = apply_changes
+            orch._make_readonly_snapshot = lambda s_: s_
+            try:
+                cfg = {"perf": {"enabled": True, "parallel": {"enabled": True, "max_workers": 8, "agents": True}}}
+                orch._run_agents_parallel_batch(SNS(cfg=cfg, turn_id=5), {"graphs_by_agent": {"A0": ["G0"]}},
+                                                [("A0", "hi")])
+            finally:
+                for k, v in saved.items():
+                    if v is None:
+                        orch.__dict__.pop(k, None)
+                    else:
+                        setattr(orch, k, v)
+                IOL.disable_staging()
+        elif kind == "staged":
+            _chunks, escaped = run_protocol([(fn, 5, 0) for fn, _ in plan], [r_ for _, r_ in plan],
+                                            case.get("limit") or (1 << 25))
+            if escaped is not None:
+                raise Violation(f"bulk staged: {BACKPRESSURE} escaped the drain->flush->retry cycle at record "
+                                f"#{escaped}", case, "stager-retry-fails")
+        elif kind == "append":
+            for fn, r_ in plan:
+                W[via](fn, r_)
+        else:  # rewrite: one stream, all records
+            iolog.rewrite_jsonl(case["streams"][0], (r_ for _, r_ in plan))
+        tree = read_tree(logs)
+    want = {}
+    for fn, r_ in plan:
+        fn = case["streams"][0] if kind == "rewrite" else fn
+        want.setdefault(fn, []).append(lognorm.ref_normalize(os.path.basename(fn), r_, ci_on))
+    if kind == "driver_capture":
+        want.setdefault("apply.jsonl", [])
+    got_all = {name: parse_lines(data, case, f"bulk {kind} {name}") for name, data in tree.items()}
+    got = {name: recs for name, recs in got_all.items() if name != "apply.jsonl" or kind != "driver_capture"}
+    want_cmp = {name: recs for name, recs in want.items() if name != "apply.jsonl" or kind != "driver_capture"}
+    note = f" (files on disk while the capture was still open: {leak})" if leak else ""
+    if sorted(got) != sorted(want_cmp):
+        raise Violation(f"bulk {kind} n={n}: streams on disk {sorted(got)} != streams written {sorted(want_cmp)}{note}",
+                        case, "bulk-files")
+    for name, w in want_cmp.items():
+        ids = [g.get("i") if isinstance(g, dict) else None for g in got[name]]
+        wids = [x["i"] for x in w]
+        if sorted(map(repr, ids)) != sorted(map(repr, wids)):
+            lost = len(set(wids) - set(ids))
+            raise Violation(f"bulk {kind} n={n}: {name} holds {len(ids)} lines for {len(wids)} records of the writer "
+                            f"({lost} missing){note}", case, "bulk-multiset")
+        if ids != wids:
+            k = next(j for j, (a, b) in enumerate(zip(ids, wids)) if a != b)
+            raise Violation(f"bulk {kind} n={n}: {name}: the writer's records are out of order from line {k}: "
+                            f"on disk {ids[k:k + 4]}..., emitted {wids[k:k + 4]}...{note}", case, "bulk-order")
+        for g, x in zip(got[name], w):
+            if not (lognorm.loose_key_eq(g, x) if kind == "rewrite" else lognorm.strict_eq(g, x)):
+                raise Violation(f"bulk {kind} n={n}: {name} holds {g}, record is {x}", case, "bulk-payload")
+    if leak:
+        raise Violation(f"bulk {kind} n={n}: records reached the disk while a LogMux was capturing: {leak}", case,
+                        "mux-leak")
+    if rec is not None:
+        rec.case(nontrivial=n >= 1000, dig=digest(case),
+                 labels=[f"kind={kind}", f"n={n}" if n in BULK_SIZES_QUICK else ("n<1000" if n < 1000 else "n=other>=1000"),
+                         f"streams={len(case['streams'])}", f"ci={case['ci']}"] +
+                        ([f"via={via}"] if kind in ("mux_flush", "mux_stage", "driver_capture", "append") else []) +
+                        (["byte-limit"] if case.get("limit") else []),
+                 sample=dict(case) if n >= 4096 else None)
+
+
+def sub_bulk(rec, seed, shard, nshards, more=0):
+    rnd = random.Random(seed)
+    combos = [(k, n) for k in BULK_KINDS for n in BULK_SIZES_QUICK]
+    extra = [(rnd.choice(BULK_KINDS), rnd.choice(BULK_SIZES_MORE + [rnd.randint(1, 12000)])) for _ in range(more)]
+    for idx, (kind, n) in enumerate(combos + extra):
+        if idx % nshards != shard and idx < len(combos):
+            continue
+        if kind == "append" and n > 20000:
+            n = 20000
+        case = {"kind": kind, "n": n, "ci": rnd.choice(["true", None]), "streams": rnd.choice(BULK_STREAMS),
+                "sseed": rnd.getrandbits(32), "via": rnd.choice(MUX_VIAS), "capture": rnd.choice(["use_mux", "begin_end"]),
+                "limit": rnd.choice([None, None, 4096, 65536]) if kind in ("staged", "mux_stage") else None}
+        try:
+            check_bulk(case, rec)
+        except Violation as v:
+            rec.violation("bulk: " + v.message, v.case, v.sig)
+            return
+
+
+# ================================================================================================
 # replay glue
 # ================================================================================================
 
@@ -1920,6 +2081,8 @@ SUBCHECKS = [
         replay=_replay(check_rotation)),
     Sub("rotation_crash", sub_rotation_crash, quick={"dirs": 12}, thorough={"dirs": 80}, shards_quick=4,
         shards_thorough=16, exhaustive=False, replay=_replay(check_crash_case)),
+    Sub("bulk", sub_bulk, quick={"more": 0}, thorough={"more": 12}, shards_quick=4, shards_thorough=16,
+        replay=_replay(check_bulk)),
 ]
 
 KNOWN_PROBES = {F_STAGER: probe_stager_limit, F_ROT_ERR: probe_rotate_error}
